@@ -399,7 +399,12 @@ def check(ctx):
                       and norm(n.value) in MASK_EQ}
         elem_rets = [r for r in body_nodes(eq.node) if isinstance(r, ast.Return) and r.value is not None
                      and any(t in norm(r.value) for t in ELEM_EQ)]
-        good = bool(elem_rets)
+        # the two non-missing parts are compared as they are: converting one side to the other's dtype makes the
+        # relation depend on the direction (3 == int(3.7) but 3.7 != float(3))
+        cmp_nodes = [x for x in body_nodes(eq.node) if isinstance(x, ast.Compare) and len(x.ops) == 1 and isinstance(x.ops[0], ast.Eq)
+                     and any(isinstance(y, ast.Subscript) and norm(y).startswith((f"{S0}[~", f"{O0}[~")) for y in ast.walk(x))]
+        exact = bool(cmp_nodes) and all(norm(x) in ELEM_EQ for x in cmp_nodes)
+        good = bool(elem_rets) and exact
         for r in elem_rets:
             txt = norm(r.value)
             fx = facts_at(eq, r)
